@@ -92,12 +92,34 @@ def lean_requests(c):
         if 'ok' in text:
             reqs.append({'op': 'parse_' + k, 'text': text['ok']})
         return reqs
+    if k == 'cfg':
+        G = enc.build_cfg(c['X'])
+        t = call(CA.cfg_print_simple, G)
+        c['_cfgtext'] = t
+        reqs = [{'op': 'print_simple_cfg', 'G': c['X']}]
+        if 'ok' in t:
+            reqs.append({'op': 'parse_simple_cfg', 'text': t['ok']})
+            reqs.append({'op': 'parse_simple_cfg', 'text': messy(t['ok'], c['X'])})
+        return reqs
     if k == 'regexp':
         r = enc.build_regexp(c['X'])
         c['_texts'] = [print_regexp(r), print_regexp_simple(r), spaced(print_regexp_simple(r), c['X'])]
         return [{'op': 'regexp_print', 'r': c['X']}, {'op': 'regexp_parse_full', 'text': c['_texts'][0]},
                 {'op': 'regexp_parse_simple', 'text': c['_texts'][1]}, {'op': 'regexp_parse_simple', 'text': c['_texts'][2]}]
     return []
+
+
+def messy(t, X):
+    """a layout variant of a grammar text: comment line, blank line, extra blanks, explicit epsilon declaration"""
+    h = int(core.digest(X)[:4], 16)
+    lines = t.split('\n')
+    if h % 2:
+        lines = ['% grammar'] + lines
+    if h % 3 == 0:
+        lines = [l.replace(' | ', '|').replace(' -> ', '  ->') for l in lines]
+    if h % 5 == 0 and 'ε' in t:
+        lines = ['epsilon = ε', ''] + lines
+    return '\n'.join(lines) + ('\n' if h % 7 == 0 else '')
 
 
 def spaced(t, X):
@@ -186,6 +208,20 @@ def judge(ctx, c, answers):
     if 'ok' not in t:
         ctx.violation('printer-raises', {'case': c_min(c), 'impl': t})
         return
+    if answers:
+        if answers[0].get('ok') != t['ok']:
+            ctx.violation('correspondence:print_simple_cfg', {'case': c_min(c), 'impl': t['ok'], 'model': answers[0]}, no_input=True)
+        for la, text in zip(answers[1:], [t['ok'], messy(t['ok'], c['X'])]):
+            bb = EX.try_parse(CA.parse_simple_cfg, text)
+            if bb is None:
+                same = 'err' in la
+            else:
+                sb = enc.cfg_to_spec(bb)
+                m = la.get('ok', {}).get('G')
+                same = m is not None and (sorted(set(m['V'])), sorted(set(m['Sigma'])), m['S'], [[l, r] for l, _, r in m['R']]) == \
+                    (sb['V'], sb['Sigma'], sb['S'], [[l, [list(x) for x in r]] for l, _, r in sb['R']]) and la['ok']['eps'] == str(bb.epsilon)
+            if not same:
+                ctx.violation('correspondence:parse_simple_cfg', {'case': c_min(c), 'text': text, 'model': str(la)[:300]}, no_input=True)
     b = EX.try_parse(CA.parse_simple_cfg, t['ok'])
     used_sigma = sorted({n for _, _, rhs in c['X']['R'] for kk, n in rhs if kk == 't'})
     if b is None:
